@@ -51,7 +51,7 @@ Definition SRC_DROP := 2%nat.  Definition SRC_VECTOR := 3%nat.
 
 Inductive instr :=
 | IInvoke (o : op)
-| IEndOp (cnt : bool)                      (* K_RET rv; the operation no longer uses the container *)
+| IEndOp (cd : bool)                      (* K_RET rv; the operation no longer uses the container *)
 | ISetRv (v : Z) | ISetRvSize
 | IFault (code : Z)
 (* mutex *)
@@ -64,15 +64,16 @@ Inductive instr :=
 | IDtor (src : nat) (o : nat)                      (* X::~X() of object o *)
 | IRelock (esz : nat)
 (* destroyObjects(delay) *)
-| IDdTry (d : Z) | IDdLoop (d : Z) (cnt esz : nat) | IDdBody (d : Z) (cnt : nat)
-| IDdTryA (d : Z) (cnt esz : nat) | IDdTryB (d : Z) (cnt esz : nat)
+| IDdTry (d : Z) | IDdLoop (d : Z) (k esz : nat) | IDdBody (d : Z) (k : nat)
+| IDdTryA (d : Z) (k esz : nat) | IDdTryB (d : Z) (k esz : nat)
 | ISleep | IYield
 (* ~DelayedDestructor *)
 | IDcGate | IDcLoop (ii : nat) | IDcAfter (ii : nat) | IDcVec.
 
 Record config := Config { locked : bool; hascb : bool; throws : list nat }.
-(* ghost logs: destructor calls, callback calls, pushes into the vector, objects selected by a scan *)
-Record ghost := Ghost { dlog : list nat; cblog : list nat; addlog : list nat; reaped : list nat }.
+(* ghost logs: destructor calls, callback calls, pushes into the vector, objects selected by a scan,
+   references released by the container (ecall.clear / unwinding / vector destruction) *)
+Record ghost := Ghost { dlog : list nat; cblog : list nat; addlog : list nat; reaped : list nat; rlog : list nat }.
 Record glob := Glob {
   cf : config; mtx : option nat; vec : list nat;
   cstate : nat;                    (* 0 alive, 1 being destroyed, 2 destroyed *)
@@ -106,10 +107,11 @@ Definition new_obj g (dm cm : nat) : glob * nat :=
   (Glob (cf g) (mtx g) (vec g) (cstate g) (slots g) (fupd (rc g) o 1%nat) o (ncb g) (busy g)
         (fupd (dmode g) o dm) (fupd (cmode g) o cm) (gh g), o).
 
-Definition log_d g o := set_gh g (Ghost (o :: dlog (gh g)) (cblog (gh g)) (addlog (gh g)) (reaped (gh g))).
-Definition log_cb g o := set_gh g (Ghost (dlog (gh g)) (o :: cblog (gh g)) (addlog (gh g)) (reaped (gh g))).
-Definition log_add g o := set_gh g (Ghost (dlog (gh g)) (cblog (gh g)) (o :: addlog (gh g)) (reaped (gh g))).
-Definition log_reaped g l := set_gh g (Ghost (dlog (gh g)) (cblog (gh g)) (addlog (gh g)) (l ++ reaped (gh g))).
+Definition log_d g o := set_gh g (Ghost (o :: dlog (gh g)) (cblog (gh g)) (addlog (gh g)) (reaped (gh g)) (rlog (gh g))).
+Definition log_cb g o := set_gh g (Ghost (dlog (gh g)) (o :: cblog (gh g)) (addlog (gh g)) (reaped (gh g)) (rlog (gh g))).
+Definition log_add g o := set_gh g (Ghost (dlog (gh g)) (cblog (gh g)) (o :: addlog (gh g)) (reaped (gh g)) (rlog (gh g))).
+Definition log_reaped g l := set_gh g (Ghost (dlog (gh g)) (cblog (gh g)) (addlog (gh g)) (l ++ reaped (gh g)) (rlog (gh g))).
+Definition log_rel g o := set_gh g (Ghost (dlog (gh g)) (cblog (gh g)) (addlog (gh g)) (reaped (gh g)) (o :: rlog (gh g))).
 
 Fixpoint slot_get (s : nat) (l : list (nat * nat)) : option nat :=
   match l with [] => None | (k, o) :: r => if Nat.eqb k s then Some o else slot_get s r end.
@@ -257,7 +259,7 @@ Definition exec (t c : nat) (g : glob) (r : Z) (i : instr) : option (glob * Z * 
     match l with
     | [] => Some (g, r, [], [])
     | o :: l' =>
-      let g' := dec_rc g o in
+      let g' := if Nat.eqb src SRC_DROP then dec_rc g o else log_rel (dec_rc g o) o in
       Some (g', r, (if Nat.eqb (rc g o) 1 then [IDtor src o] else []) ++ [IClear src l'], [])
     end
   | IDtor src o =>
@@ -358,7 +360,7 @@ Definition fin (l : loc) : bool := match stk l, prog l with [], [] => true | _, 
 Definition init (c : config) (progs : list (list op)) : sys glob loc :=
   Sys (Glob c None [] 0 [] (fun _ => 0%nat) 0 0
             (list_sum (map (fun p => length (filter counted p)) progs))
-            (fun _ => 0%nat) (fun _ => 0%nat) (Ghost [] [] [] []))
+            (fun _ => 0%nat) (fun _ => 0%nat) (Ghost [] [] [] [] []))
       (map (fun p => Loc p [] 0) progs).
 
 (* ---------- entry point of the correspondence check ---------- *)
